@@ -1155,6 +1155,14 @@ func (m *monitor) finale() {
 	}
 	w.API.Faults = nil
 	m.opIndex = len(m.r.tr.Ops)
+	// whoever holds a foreign finalizer releases it now, so that deletions can complete
+	for _, j := range w.API.Jobs() {
+		for _, f := range j.Finalizers {
+			if f == foreignFinalizer {
+				m.r.releaseForeignFinalizer(keyOf(j))
+			}
+		}
+	}
 	if !m.r.settle() {
 		m.label("inconclusive-livelock")
 		return
